@@ -311,3 +311,58 @@ func ZZ_C06_variables() {
 	}
 	zzCover("end")
 }
+
+// ZZ_C06_rejections: entries that hold only errors are as much bound to their
+// schema and to their exact document as entries that hold a plan: a request
+// rejected under one schema is answered afresh under a replacement schema (and
+// the other way round), and a document that spreads an undefined fragment does
+// not colour the entry of the next document that defines it.
+func ZZ_C06_rejections() {
+	normalize := zzChoice("normalize", 2) == 1
+	mk := func(withB bool) Schema {
+		fields := Fields{"a": &Field{Type: String, Resolve: func(p ResolveParams) (interface{}, error) { return "A", nil }},
+			"o": &Field{Type: NewObject(ObjectConfig{Name: "Obj", Fields: Fields{"x": &Field{Type: String, Resolve: func(p ResolveParams) (interface{}, error) { return "X", nil }},
+				"y": &Field{Type: String, Resolve: func(p ResolveParams) (interface{}, error) { return "Y", nil }}}}),
+				Resolve: func(p ResolveParams) (interface{}, error) { return 1, nil }}}
+		if withB {
+			fields["b"] = &Field{Type: String, Resolve: func(p ResolveParams) (interface{}, error) { return "B", nil }}
+		}
+		s, err := NewSchema(SchemaConfig{Query: NewObject(ObjectConfig{Name: "Query", Fields: fields})})
+		zzAssert(err == nil, "schema")
+		return s
+	}
+	c := NewPlanCache(PlanCacheOptions{Normalize: normalize, MaxEntries: 4})
+	same := func(s *Schema, text string, what string) {
+		want := Do(Params{Schema: *s, RequestString: text})
+		pr := c.Get(s, text, "")
+		var got *Result
+		if pr.Plan == nil {
+			got = &Result{Errors: pr.Errors}
+		} else {
+			got = ExecutePlan(pr.Plan, ExecuteParams{Schema: *s, Args: pr.SynthArgs})
+		}
+		zzAssert((len(got.Errors) == 0) == (len(want.Errors) == 0), what+": the cache and a fresh execution disagree on whether the request fails")
+		zzAssert((got.Data == nil) == (want.Data == nil) && (want.Data == nil || zzDeepEqual(got.Data, want.Data)), what+": data differs from a fresh execution")
+	}
+	switch zzChoice("scenario", 4) {
+	case 0: // rejected under the old schema, valid under its replacement
+		s1, s2 := mk(false), mk(true)
+		same(&s1, "{ a b }", "old schema")
+		same(&s2, "{ a b }", "replacement schema")
+	case 1: // the other way round
+		s1, s2 := mk(true), mk(false)
+		same(&s1, "{ a b }", "old schema")
+		same(&s2, "{ a b }", "replacement schema")
+	case 2: // an undefined fragment, then the same spread with its definition
+		s := mk(true)
+		same(&s, "{ o{ ...F } }", "undefined fragment")
+		same(&s, "{ o{ ...F } } fragment F on Obj{ x }", "fragment defined")
+		same(&s, "{ o{ ...F } } fragment F on Obj{ y }", "fragment defined differently")
+	default: // two failing documents around a good one
+		s := mk(true)
+		same(&s, "{ o{ ...G } }", "undefined fragment")
+		same(&s, "{ o{ ...G ...F } } fragment F on Obj{ x } fragment G on Obj{ y }", "both defined")
+		same(&s, "{ o{ ...G ...F } } fragment F on Obj{ y } fragment G on Obj{ y }", "another body")
+	}
+	zzCover("end")
+}
